@@ -293,6 +293,19 @@ def gen_tree(rng, depth, terminal, level="par", uni=False):
     return ("t", rng.choice(names))
 
 
+def count_paths(t):
+    k = t[0]
+    if k == "items":
+        return 4
+    if k in ("t", "m", "any"):
+        return 1
+    if k == "grp":
+        return count_paths(t[1])
+    if k == "ser":
+        return count_paths(t[1]) * count_paths(t[3])
+    return count_paths(t[1]) + count_paths(t[2])
+
+
 def tree_tokens(t):
     k = t[0]
     if k == "t":
